@@ -22,6 +22,8 @@ CLAUSE = CLAUSE + (" (RF-DEP, path-sensitive zero-ness valuations) in demux_ts_p
                    "rewound for the next PES packet - also when the whole TS packet was already in the synchronisation buffer.")
 CLAUSE = CLAUSE + (" samples_pointer() advances a second-field row of a sequential raw frame by count[0], the size of the first field.")
 CLAUSE = CLAUSE + (" Every advance of the PES collecting cursor ts_pes_bp is paired, in the same step, with the countdown of ts_pes_todo by the same amount.")
+CLAUSE = CLAUSE + (" encode_timestamp and decode_timestamp shift each of the five PTS bytes by the same amount (same mask on byte "
+                   "0); last_line follows only lines with a known position (s->line > 0).")
 NOT_DECIDED = ("PES/TS header layout, PTS encoding, size rounding to 184 and stuffing arithmetic, that demux (mux (x)) == x as values, "
                "conformance to EN 300 472 / EN 301 775 beyond the table.")
 
@@ -76,6 +78,8 @@ def run(ctx, run):
     _header_lookahead(ctx, run)
     _rejection_traceless(ctx, run, P.need("vbi_dvb_mux_feed", MUX))
     _second_field_offset(ctx, run, P.need("samples_pointer", MUX))
+    _timestamp_layout(ctx, run)
+    _last_line_under_positive(ctx, run, fm)
     # TS round trip: a completed PES packet is examined on every path (rule shared with C07)
     from . import C07
     C07._complete_packet_examined(ctx, run, P.need("demux_ts_packet", DEMUX))
@@ -576,3 +580,120 @@ def _second_field_offset(ctx, run, f):
                                   "before it are the first field's (count[0]): with fields of different size the raw data units carry "
                                   "the samples of another line" % (ex.pretty(f, i)[:40], ex.pretty(f, j)[:30]), ex.loc(f, i))
     run.floor("row offsets by a field size in samples_pointer", n, 1)
+
+
+def _timestamp_layout(ctx, run):
+    """RF-TAB: the 33 bit PTS is spread over five header bytes (ISO 13818-1: bits 32..30, 29..22,
+    21..15, 14..7, 6..0).  encode_timestamp() of the multiplexer and decode_timestamp() of the
+    demultiplexer are two renderings of that one table: for every byte the encoder's right shift
+    equals the decoder's left shift (and the masks on byte 0 agree).  A slip on either side leaves
+    the packet well formed and corrupts only time stamps above 2^29 - none the tests use."""
+    P = ctx.prog
+    enc = P.need("encode_timestamp", MUX)
+    dec = P.need("decode_timestamp", DEMUX)
+    run.touch(enc)
+    run.touch(dec)
+
+    def shift_of(f, node, ops):
+        """(shift, mask) applied to the value on the way to/from a byte; positive = towards the low bits on the encoder side."""
+        sh, mask = None, None
+        for j in ex.walk(f, node):
+            e = f.exprs[j]
+            if e["k"] == "bin" and e["op"] in ops and ex.const(f, e["c"][1]) is not None and sh is None:
+                sh = ex.const(f, e["c"][1])
+            if e["k"] == "bin" and e["op"] == "*" and ex.const(f, e["c"][1]) == 2 and sh is None:
+                sh = -1
+            if e["k"] == "bin" and e["op"] == "&" and mask is None:
+                m = [ex.const(f, c) for c in e["c"] if ex.const(f, c) is not None]
+                if m:
+                    mask = m[0] & 0xFF
+        return sh, mask
+    E = {}
+    for bid, i in flow.all_events(enc):
+        for lhs, var, op, rhs in flow.stores(enc, i):
+            if lhs is None or rhs is None or op != "=":
+                continue
+            l = enc.exprs[ex.skip(enc, lhs)]
+            if l["k"] == "idx" and ex.const(enc, l["c"][1]) is not None and enc.exprs[ex.skip(enc, l["c"][0])].get("name") == enc.params[0]["name"]:
+                E[ex.const(enc, l["c"][1])] = shift_of(enc, rhs, (">>",))
+    D = {}
+    pn = dec.params[3]["name"]
+    parent = {}
+    for i, e in enumerate(dec.exprs):
+        for c in e.get("c", []) or []:
+            if isinstance(c, int) and c >= 0:
+                parent[c] = i
+    for i, e in enumerate(dec.exprs):
+        if e["k"] == "idx" and dec.exprs[ex.skip(dec, e["c"][0])].get("name") == pn and ex.const(dec, e["c"][1]) is not None:
+            k = ex.const(dec, e["c"][1])
+            j = i
+            sh, mask = None, None
+            while j in parent:
+                j = parent[j]
+                pe = dec.exprs[j]
+                if pe["k"] == "bin" and pe["op"] == "<<" and ex.const(dec, pe["c"][1]) is not None:
+                    sh = ex.const(dec, pe["c"][1])
+                    break
+                if pe["k"] == "bin" and pe["op"] == ">>" and ex.const(dec, pe["c"][1]) is not None:
+                    sh = -ex.const(dec, pe["c"][1])
+                    break
+                if pe["k"] == "bin" and pe["op"] == "&" and mask is None:
+                    m = [ex.const(dec, c) for c in pe["c"] if ex.const(dec, c) is not None]
+                    if m:
+                        mask = m[0] & 0xFF
+                if pe["k"] in ("asg", "call", "ret", "decl"):
+                    break
+            if sh is not None:
+                D.setdefault(k, set()).add((sh, mask))
+    run.floor("time stamp bytes written by the multiplexer", len(E), 5)
+    run.floor("time stamp bytes read by the demultiplexer", len([k for k in D if k in E]), 5)
+    for k in sorted(E):
+        key = "RF-TAB:timestamp:byte-%d" % k
+        es, em = E[k]
+        ds = {s for s, m in D.get(k, ())}
+        bad = []
+        if es is None or ds != {es}:
+            bad.append("the multiplexer shifts by %s, the demultiplexer by %s" % (es, sorted(ds)))
+        if k == 0:
+            dm = {m for s, m in D.get(k, ()) if m is not None}
+            if em is None or dm != {em}:
+                bad.append("mask %s against %s" % (hex(em) if em is not None else None, [hex(x) for x in dm]))
+        if bad:
+            run.violation("RF-TAB", key, "PTS byte %d: %s - the two sides no longer describe the same bit layout: time stamps with "
+                          "different bits 29..32 are sent or read wrong while the packet stays well formed" % (k, "; ".join(bad)),
+                          "%s:%d" % (enc.file, enc.line), witness={"encoder": list(E[k]), "decoder": sorted(map(list, D.get(k, ())), key=str)})
+        else:
+            run.holds("RF-TAB", key, "byte %d: shift %d on both sides" % (k, es), "%s:%d" % (enc.file, enc.line))
+
+
+def _last_line_under_positive(ctx, run, f):
+    """RF-DOM: last_line - the reference for the ascending-order test and for the field parity
+    given to lines of unknown position - follows only lines that *have* a position: every
+    `last_line = s->line` is dominated by s->line > 0.  Updated by a line 0 it falls back to 0,
+    and the next unknown-position Teletext line of a second-field run is labelled first field:
+    the demultiplexer sees the frame end there."""
+    run.touch(f)
+    n = 0
+    for bid, i in flow.all_events(f):
+        for lhs, var, op, rhs in flow.stores(f, i):
+            if lhs is None or rhs is None or op != "=":
+                continue
+            l = f.exprs[ex.skip(f, lhs)]
+            if l["k"] != "ref" or l.get("name") != "last_line":
+                continue
+            r = f.exprs[ex.skip(f, rhs)]
+            while r["k"] == "cast":
+                r = f.exprs[ex.skip(f, r["c"][0])]
+            if not (r["k"] == "mem" and r["member"] == "line"):
+                continue
+            n += 1
+            key = "RF-DOM:insert_sliced_data_units:last-line-positive"
+            ok = any(a.rel == ">" and a.R is not None and a.R.const == 0 and a.L.has("vbi_sliced.line") for a in atoms.atoms_at(f, i)) \
+                or any(a.rel == "!=" and a.R is not None and a.R.const == 0 and a.L.has("vbi_sliced.line") for a in atoms.atoms_at(f, i))
+            if ok:
+                run.holds("RF-DOM", key, "`%s` only under s->line > 0" % ex.pretty(f, i)[:40], ex.loc(f, i))
+            else:
+                run.violation("RF-DOM", key, "`%s` also runs for lines whose position is unknown (line 0): last_line falls back to 0, "
+                              "the next line-0 Teletext unit after second-field lines gets field_parity = 1 (first field) and the "
+                              "ascending-order test forgets the lines before it" % ex.pretty(f, i)[:40], ex.loc(f, i))
+    run.floor("updates of last_line from a sliced line", n, 1)
